@@ -428,3 +428,66 @@ start_client.obligation_props = [
     ("iter:no-close-while-continuing", ["C19"]), ("iter:no-auth-frame-in-loop", ["C19"]), ("exc:", ["C19"]), ("post:", ["C19"]),
     ("inv:", ["C19"]),
 ]
+
+
+# ------------------------------------------------------------------------------- send_subscriptions (C04, C13)
+from . import util as U  # noqa: E402
+from .common import EVENT as _EV  # noqa: E402
+
+
+def _get_from_storage(sx, args, kwargs, st, node):
+    """queue.get (ASSUMED): the next (sub_id, event-or-None) item put by storage -- events come from the store or from
+    admission, so they are canonical (is_canonical); or the task is cancelled"""
+    s2 = st.fork()
+    sid = sx.fresh(V.Str, "q_sub_id", st)
+    ev = sx.fresh(V.Opt(_EV), "q_event", st)
+    t = V.Opt(_EV)
+    e = t.get(ev.term)
+    for f in ("id", "pubkey", "sig"):
+        st.assume(z3.Implies(z3.Not(t.is_none(ev.term)), z3.InRe(_EV.get(e, f), z3.Star(U.HEX))))
+    st.ghost["n_items"] = Val(V.Int, st.ghost["n_items"].term + 1)
+    st.ghost["item_sub_id"] = sid
+    st.ghost["item_is_eose"] = Val(V.Bool, t.is_none(ev.term))
+    return [R(st, Conc((sid, ev))), R(s2, None, Exc("CancelledError"))]
+
+
+def _ws_send_frames(sx, args, kwargs, st, node):
+    outs = []
+    for e in NET_ERRS:
+        outs.append(R(st.fork(), None, Exc(e)))
+    outs.append(R(st.fork(), None, other_exc()))
+    msg = sx.deref(args[0], st)
+    # C04: every frame handed to the socket is a well-formed EVENT or EOSE frame for the item just taken from the queue
+    frame_ok = z3.If(st.ghost["item_is_eose"].term, z3.InRe(msg.term, U.EOSE_FRAME), z3.InRe(msg.term, U.EVENT_FRAME))
+    sx.oblige(st, "%s/frame:wellformed-event-or-eose-frame" % sx.cur_func, frame_ok, "typestate", node, props=["C04"])
+    enc = REG.ufun("encode_basestring", [z3.StringSort()], z3.StringSort())(st.ghost["item_sub_id"].term)
+    carries = z3.Contains(msg.term, enc)
+    sx.oblige(st, "%s/frame:carries-the-items-subscription-id" % sx.cur_func, carries, "typestate", node, props=["C04", "C13"])
+    st.ghost["n_frames"] = Val(V.Int, st.ghost["n_frames"].term + 1)
+    outs.append(R(st, NONE))
+    return outs
+
+
+def ghost_sender(sx, st):
+    st.ghost["n_items"] = V.mk_int(0)
+    st.ghost["n_frames"] = V.mk_int(0)
+    st.ghost["item_sub_id"] = V.mk_str("")
+    st.ghost["item_is_eose"] = V.mk_bool(False)
+
+
+send_subs = REG.unit(Unit(
+    P, "send_subscriptions",
+    Contract("send_subscriptions", {}, ensures=[("returns-byte-count", "result >= 0")], raises={}, returns=V.Int),
+    loops={"True": LoopSpec("items", index="_n", invariants=[("sent-nonneg", "sent >= 0")], iter_post=[
+        # one queue item -> at most one frame; exactly one when the iteration completes without an error from the socket
+        ("one-frame-per-item", "ghost('n_frames') <= head_n_frames + 1 and ghost('n_items') <= head_n_items + 1 and ghost('n_frames') - head_n_frames <= ghost('n_items') - head_n_items"),
+    ])},
+    props=["C04", "C13"], ghost_init=ghost_sender,
+    canaries=[("never-returns", "False")],
+))
+send_subs.param_defaults = {
+    "get_from_storage": lambda sx, st: Func(_get_from_storage, "queue.get"),
+    "ws_send": lambda sx, st: Func(_ws_send_frames, "ws_send"),
+    "log": lambda sx, st: LOGGER,
+}
+send_subs.ghost_havoc = lambda sx, body, st: [st.ghost.__setitem__(g, sx.fresh(st.ghost[g].ty, "g_" + g, st)) for g in ("n_items", "n_frames", "item_sub_id", "item_is_eose")]
